@@ -112,6 +112,11 @@ def small_shapes():
         for b in leaves:
             out += [[a, b], {'a': a, 'b': b}, {'b': a, 'a': b}]
     out += [[], {}, [[]], [{}], {'k': []}, {'k': {}}, [[], []], [{}, []]]
+    # values that compare equal but differ in type or representation, in every ordered pair
+    for grp in gen.CONFUSABLE:
+        for a in grp:
+            for b in grp:
+                out += [[a, b], {'x': a, 'y': b}, [a, [b]], {'k': [a, b]}]
     return out
 
 
@@ -164,6 +169,13 @@ def method_roundtrips(ctx, props, per_class):
 @driver('C01')
 def drive_c01(ctx):
     method_roundtrips(ctx, ['C01'], 6 if ctx.quick else 120)
+    # table arguments holding values that compare equal but differ in type, side by side
+    for i, grp in enumerate(gen.CONFUSABLE):
+        if mine(ctx, i):
+            for a in grp:
+                for b in grp:
+                    ctx.rec.add('RoundTrip', ['C01'], nt=True, **actions.roundtrip(
+                        framegen.class_of('Queue.Declare')(queue='q', arguments={'x-flags': [a, b], 'y': {'m': a, 'n': b}}), 1))
     # frames around and beyond the 128 KiB mark (long strings and tables "up to their length limits")
     from pamqp import commands
     big = [131056, 131057, 200000] if ctx.quick else [131055, 131056, 131057, 131072, 200000, 300001]
@@ -191,6 +203,25 @@ def drive_c02(ctx):
                 rec.add('RoundTrip', ['C02'], nt=True, **actions.roundtrip(f, framegen.rand_channel(rng)))
     for _ in range(150 if ctx.quick else 2000):
         rec.add('RoundTrip', ['C02'], nt=True, **actions.roundtrip(framegen.rand_header(rng), framegen.rand_channel(rng)))
+    # the LAST property present ends the payload: values whose encoding ends in the frame-end octet 0xCE
+    import datetime as _dt
+    from pamqp import commands as _c, header as _h
+    ce = {'priority': [206], 'timestamp': [_dt.datetime.fromtimestamp(k * 256 + 206, _dt.timezone.utc) for k in (0, 1, 70000, 2 ** 24 - 1)],
+          'headers': [{'k': -50}, {'a': 1, 'z': bytearray(b'\xce')}, {'n': {'m': [-50]}}, {'t': _dt.datetime.fromtimestamp(206, _dt.timezone.utc)}]}
+    k = 0
+    for last, vals in ce.items():
+        for v in vals:
+            for extra in range(4 if ctx.quick else 40):
+                k += 1
+                if not mine(ctx, k):
+                    continue
+                idx = [p[0] for p in framegen.PROPS].index(last)
+                kw = {last: v}
+                for n, ty in framegen.PROPS[:idx]:
+                    if n != 'cluster_id' and rng.random() < 0.4:
+                        kw[n] = framegen.rand_prop_value(rng, n, ty)
+                rec.add('RoundTrip', ['C02'], nt=True, **actions.roundtrip(
+                    _h.ContentHeader(0, rng.choice([0, 206, 2 ** 40]), _c.Basic.Properties(**kw)), framegen.rand_channel(rng)))
 
 
 @driver('C18')
@@ -761,6 +792,19 @@ def fuzz_inputs(ctx, scale):
     for tag in b'AFSx':
         for ln in LEN_VALUES + [2, 5, 6, 7, 100]:
             yield 'inflated-%s' % chr(tag), table_frame(b'\x01k' + bytes([tag]) + struct.pack('>I', ln) + b'\x01a')
+    # lengths with the top bit set (a signed read makes them negative: the offset would move BACKWARDS), placed
+    # directly in a table, inside arrays after 0..3 other elements, and in a table inside an array
+    neg = [0x80000000, 0x80000001, 0xC0000000] + [0xFFFFFFFF - k for k in range(0, 26)]
+    for tag in b'AFSx':
+        for ln in (neg if not ctx.quick else neg[::2] + [0xFFFFFFF7, 0xFFFFFFF9]):
+            v = bytes([tag]) + struct.pack('>I', ln) + b'\x01a'
+            for pre in range(0, 4):
+                body = b'V' * pre + v
+                yield 'neglen-array-%s' % chr(tag), table_frame(b'\x01k' + b'A' + struct.pack('>I', len(body)) + body)
+            inner = b'\x01j' + v
+            body = b'F' + struct.pack('>I', len(inner)) + inner
+            yield 'neglen-table-in-array-%s' % chr(tag), table_frame(b'\x01k' + b'A' + struct.pack('>I', len(body)) + body)
+            yield 'neglen-table-%s' % chr(tag), table_frame(b'\x01k' + v)
     for ln in LEN_VALUES + [1, 2, 3, 50]:
         yield 'inflated-table', wiregen.envelope(1, 0, struct.pack('>HH', 10, 11) + struct.pack('>I', ln) + b'\x01kV')
         yield 'inflated-longstr', wiregen.envelope(1, 0, struct.pack('>HH', 10, 20) + struct.pack('>I', ln) + b'ab')
@@ -1198,7 +1242,11 @@ def drive_c16(ctx):
               if label.split('-')[0] in ('unknown', 'inflated', 'short', 'bad', 'key', 'huge', 'nested', 'overlap')]
     rng.shuffle(faults)
     for i, b in enumerate(faults[:400 if ctx.quick else 4000]):
-        ctx.rec.add('Unmarshal', ['C16'], nt=True, label='fault-history', **actions.unmarshal(b))
+        first = actions.unmarshal(b)
+        ctx.rec.add('Unmarshal', ['C16'], nt=True, label='fault-history', **first)
+        if i % 2 == 0:          # the very same bytes again: same result, whatever the first attempt left behind
+            again = actions.unmarshal(b)
+            ctx.rec.add('SameResult', ['C16'], nt=True, b=first['b'], out1=first['out'], out2=again['out'])
         if i % 4 == 3:
             good = wiregen.rand_method_frame(rng, rng.choice(heapdrv.WITH_TABLE), lenient=False)
             ctx.rec.add('Unmarshal', ['C16'], nt=True, label='after-faults', wf=True, **actions.unmarshal(good))
